@@ -10,7 +10,13 @@
               each token of an alphabet / prefix truncation / bracket flip of every valid corpus program and of its
               header; real compiler under a 5 s alarm; outcome class {ok, diagnostic, internal, timeout}.  An internal
               exception or timeout whose (file, function, exception) is not a listed known finding is a VIOLATION with the
-              mutant as replay.  quick: all structural edits + a seeded third of the replacements; thorough: all.
+              mutant as replay.  quick: all structural edits + a STRATIFIED sample of the replacements (one seeded member of
+              every cell (enclosing construct, statement head, previous token class, token class) x replacement token);
+              thorough: all.
+ known sites  a known finding is matched at the granularity of the crash SITE: innermost jmc frame (file, qualified
+              function), exception class AND the source text of the failing sub-expression (c13_run.py: co_positions),
+              so a new unguarded subscript inside a function that already has a listed crash is still a VIOLATION.
+              The site expressions of the listed findings are in harness/c13_known_sites.json (or `match.expr`).
 """
 from __future__ import annotations
 
@@ -19,8 +25,8 @@ import re
 from concurrent.futures import ThreadPoolExecutor
 
 from lib import (Check, COMMON_TRUSTED, NCPU, REPO, VERIF, GEN, compile_batch, eval_cases, known_for, run_coq_files, run_py)
-from c13_corpus import corpus, FULL_CERT
-from c13_mut import mutants, ALPHABET
+from c13_corpus import corpus_c13, FULL_CERT
+from c13_mut import mutants, contexts, ALPHABET, STRING_ALPHABET
 from c14_lib import COQ_HEADER, call_encodable, env_term, space_ranges, tcase_term
 import translate_guards as tg
 
@@ -28,6 +34,23 @@ PROP = "C13"
 RUNNER = VERIF / "harness" / "c13_run.py"
 TRACER = VERIF / "harness" / "c14_run.py"
 BASELINE = VERIF / "harness" / "c13_guards_baseline.json"
+KNOWN_SITES = VERIF / "harness" / "c13_known_sites.json"          # finding id -> failing expressions of its crash sites
+PROPOSED = VERIF / "reports" / "C13-known-findings-3.json"        # findings of strengthening round 1, not yet merged
+
+
+def known_findings():
+    """listed findings of C13 (+ the proposals of round 1 until the integrator has merged them), each with the list of
+    site expressions it covers (None = no refinement recorded: the whole (file, function, exception) is covered)"""
+    refine = json.loads(KNOWN_SITES.read_text()) if KNOWN_SITES.exists() else {}
+    listed = list(known_for(PROP))
+    ids = {f["id"] for f in listed}
+    if PROPOSED.exists():
+        listed += [f for f in json.loads(PROPOSED.read_text()) if f.get("property") == PROP and f["id"] not in ids]
+    out = []
+    for f in listed:
+        m = f.get("match", {})
+        out.append((f, m.get("expr", refine.get(f["id"]))))
+    return out
 
 
 def run_mutants(jobs, chunk=300):
@@ -49,9 +72,9 @@ def deep_programs():
     return out
 
 
-def known_match(o):
-    """o = ['internal', exc, file, function, lineno, msg] | ['timeout'] -> known finding entry or None"""
-    for f in known_for(PROP):
+def known_match(o, table=None):
+    """o = ['internal', exc, file, function, lineno, msg, expr] | ['timeout'] -> known finding entry or None"""
+    for f, exprs in (table if table is not None else known_findings()):
         m = f.get("match", {})
         if o[0] == "timeout":
             if m.get("outcome") == "timeout":
@@ -61,6 +84,8 @@ def known_match(o):
             continue
         if "file" in m and (m["file"] != o[2] or m.get("function") != o[3]):
             continue
+        if "file" in m and exprs is not None and len(o) > 6 and o[6] not in exprs:
+            continue        # same function, same exception class, but a crash site that is not the listed one
         return f
     return None
 
@@ -121,33 +146,53 @@ def main(tier: str) -> int:
         print(f"NOTE property=C13 guard obligation not closed by lia (not counted as discharged): {k}", flush=True)
 
     # ------------------------------------------------------------ corpus
-    cs = corpus(REPO)
+    cs = corpus_c13(REPO)
     res = compile_batch([dict(src=c["src"], header=c["header"], cert=FULL_CERT, pack_format=c["pack_format"]) for c in cs], chunk=20)
     valid = [c for c, r in zip(cs, res) if r["ok"]]
     for c, r in zip(cs, res):
         if not r["ok"] and not r["jmc"]:
             ck.violation(dict(kind="internal-exception", program=c["src"], header=c["header"], origin=c["name"],
                               outcome=[r["exc"], r["frame"], r["msg"][:300]], expected="ok or a JMC diagnostic"))
+    n_stmt_valid = sum(1 for c in valid if c["origin"] == "statements")
+    n_stmt_total = sum(1 for c in cs if c["origin"] == "statements")
+    if n_stmt_valid < 0.8 * n_stmt_total:
+        ck.violation(dict(kind="corpus-ineffective", valid=n_stmt_valid, total=n_stmt_total,
+                          note="fewer than 80 % of the per-statement corpus programs compile on this tree: the neighbourhood "
+                               "no longer covers the statement kinds"), no_input=True)
 
     # ------------------------------------------------------------ the single-edit neighbourhood
-    allm, seen = [], set()
+    allm, seen = [], set()        # (origin name, operator, cell context, job)
     for c in valid:
-        for op, i, m in mutants(c["src"]):
+        ctx = contexts(c["src"])
+        for op, i, m in mutants(c["src"], c.get("span")):
             k = (m, c["header"], c["pack_format"])
             if k not in seen:
                 seen.add(k)
-                allm.append((c["name"], op, dict(src=m, header=c["header"], pack_format=c["pack_format"])))
+                allm.append((c["name"], op, ctx[i], dict(src=m, header=c["header"], pack_format=c["pack_format"])))
         if c["header"]:
-            for op, i, m in mutants(c["header"]):
+            ctx = contexts(c["header"])
+            for op, i, m in mutants(c["header"], c.get("header_span")):
                 k = (c["src"], m, c["pack_format"])
                 if k not in seen:
                     seen.add(k)
-                    allm.append((c["name"], "header:" + op, dict(src=c["src"], header=m, pack_format=c["pack_format"])))
+                    allm.append((c["name"], "header:" + op, ("header",) + ctx[i], dict(src=c["src"], header=m, pack_format=c["pack_format"])))
     total_neighbourhood = len(allm)
+    cells = {}
+    for n, x in enumerate(allm):
+        cells.setdefault((x[2], x[1]), []).append(n)
     if tier == "quick":
-        allm = [x for x in allm if "replace:" not in x[1] or rng.random() < 0.30]
+        # stratified: every structural edit, and one seeded member of every (context x replacement token) cell
+        keep = set()
+        for key in sorted(cells):
+            members = cells[key]
+            if "replace" not in key[1]:
+                keep.update(members)
+            else:
+                keep.add(members[rng.randrange(len(members))])
+        allm = [x for n, x in enumerate(allm) if n in keep]
+    cells_run = len({(x[2], x[1]) for x in allm})
     deep = deep_programs()
-    jobs = [x[2] for x in allm] + [dict(src=s, header=None, pack_format=None) for _, s in deep]
+    jobs = [x[3] for x in allm] + [dict(src=s, header=None, pack_format=None) for _, s in deep]
     labels = [(x[0], x[1]) for x in allm] + [(n, "generated") for n, _ in deep]
     out = run_mutants(jobs)
 
@@ -156,7 +201,7 @@ def main(tier: str) -> int:
     for (name, op), job, o in zip(labels, jobs, out):
         classes[o[0]] += 1
         if o[0] in ("internal", "timeout"):
-            key = ("timeout", "", "") if o[0] == "timeout" else (o[2], o[3], o[1])
+            key = ("timeout", "", "", "") if o[0] == "timeout" else (o[2], o[3], o[1], o[6] if len(o) > 6 else "")
             cur = sites.get(key)
             if cur is None or len(job["src"]) + len(job["header"] or "") < len(cur[1]["src"]) + len(cur[1]["header"] or ""):
                 n = (cur[3] if cur else 0) + 1
@@ -164,15 +209,16 @@ def main(tier: str) -> int:
             else:
                 sites[key] = (cur[0], cur[1], cur[2], cur[3] + 1)
     known_hit = {}
+    ktable = known_findings()
     for key, ((name, op), job, o, n) in sorted(sites.items()):
-        kf = known_match(o)
+        kf = known_match(o, ktable)
         if kf is not None:
             ck.known(kf["id"], kf["what"])
             known_hit[kf["id"]] = known_hit.get(kf["id"], 0) + n
             continue
         ck.violation(dict(kind="internal-exception" if o[0] == "internal" else "timeout", program=job["src"], header=job["header"],
                           pack_format=job["pack_format"], mutation=op, origin=name, outcome=o, occurrences=n,
-                          site=dict(file=key[0], function=key[1], exception=key[2]),
+                          site=dict(file=key[0], function=key[1], exception=key[2], failing_expression=key[3]),
                           expected="compiles, or one of jmc.compile.exception.EXCEPTIONS, within 5 s"))
 
     # ------------------------------------------------------------ tie: Tok.parse == Tokenizer.parse on traced mutants
@@ -202,7 +248,7 @@ def main(tier: str) -> int:
         o = call["out"]
         if o["kind"] == "exc" and not o["jmc"]:
             # the real tokenizer raised an internal exception where the model (C13_tok_total) says it cannot
-            kf = known_match(["internal", o["exc"], "tokenizer.py", "", 0, ""])
+            kf = known_match(["internal", o["exc"], "tokenizer.py", "", 0, ""], ktable)
             if kf is None and reported < 3:
                 reported += 1
                 ck.violation(dict(kind="tokenizer-internal-exception", program=j["src"], text=call["string"][:400],
@@ -228,9 +274,13 @@ def main(tier: str) -> int:
         rule="one evaluation = one distinct mutant compiled by the real compiler (+ one per traced Tokenizer.parse call compared with "
              "the model); non-trivial = mutants that no longer compile (diagnostic or internal) + distinct traced calls",
         programs=len(valid), corpus=dict(total=len(cs), valid=len(valid)),
-        neighbourhood=dict(total=total_neighbourhood, run=len(allm), generated_deep=len(deep), alphabet=ALPHABET),
+        neighbourhood=dict(total=total_neighbourhood, run=len(allm), generated_deep=len(deep), alphabet=ALPHABET,
+                           string_alphabet=STRING_ALPHABET),
         outcome_classes=classes,
-        crash_sites={f"{k[0]}:{k[1]}:{k[2]}": v[3] for k, v in sorted(sites.items())},
+        crash_sites={f"{k[0]}:{k[1]}:{k[2]}:{k[3]}": v[3] for k, v in sorted(sites.items())},
+        statement_corpus=dict(total=n_stmt_total, valid=n_stmt_valid),
+        cells=dict(total=len(cells), run=cells_run,
+                   rule="cell = (enclosing construct, statement head, class of previous token, class of edited token) x operator"),
         guard_obligations=dict(total=len(obs), closed_by_lia=len(closed), open=open_keys, new_open_vs_baseline=new_open,
                                unanalysed=[f"{u['file']}:{u['function']}:{u['line']} {u['expr'][:60]} ({u['why']})" for u in unanalysed]),
         tokenizer_calls_compared=len(calls), disagreements_checked=len(bad),
